@@ -96,10 +96,12 @@ DataFieldSize(mode, mt) == LenDelim(1, UnixfsDataLen(mode, mt))
 
 \* entries: function  name index -> [c : index into Cids, ts : limbs]
 EntrySize(n, e) == LinkSize(NameLens[n], CidLen(Cids[e.c]), e.ts)
-RECURSIVE SumLinks(_, _)
-SumLinks(ent, S) == IF S = {} THEN 0
-                    ELSE LET n == CHOOSE x \in S : TRUE IN EntrySize(n, ent[n]) + SumLinks(ent, S \ {n})
-DirBlockSize(ent, mode, mt) == DataFieldSize(mode, mt) + SumLinks(ent, DOMAIN ent)
+\* sum over the name table (a function indexed by position: TLC evaluates function arguments once,
+\* a recursive OPERATOR over a shrinking set re-evaluates its lazy argument exponentially often)
+DirBlockSize(ent, mode, mt) ==
+  LET S[k \in 0..Len(NameLens)] ==
+        IF k = 0 THEN 0 ELSE S[k - 1] + (IF k \in DOMAIN ent THEN EntrySize(k, ent[k]) ELSE 0)
+  IN DataFieldSize(mode, mt) + S[Len(NameLens)]
 
 \* the documented sharding rule of the block-size mode: strictly above the threshold
 ShouldShard(size, threshold) == size > threshold
